@@ -47,7 +47,7 @@ func (c11) Extra() map[string]any {
 	return e
 }
 
-var c11Faults = []string{"skip-reset-w", "skip-reset-b", "skip-reset-both", "skip-backprop", "dup-update", "reorder-bw", "bad-update"}
+var c11Faults = []string{"skip-reset-w", "skip-reset-b", "skip-reset-both", "skip-backprop", "dup-update", "reorder-bw", "bad-update", "skip-update-w", "skip-update-b"}
 
 func (c11) Generate(r *sim.Rand, tier string) *sim.Scenario {
 	sc := &sim.Scenario{Cfg: map[string]float64{}, Data: map[string][]float64{}}
@@ -637,7 +637,20 @@ func (c11) execOne(sc *sim.Scenario) *sim.Outcome {
 		// pass (its results are spent), so no weight receives a gradient
 		mustFail := !fresh[0] || !fresh[1] || st.Tag == "skip-backprop"
 		var uerr [2]error
+		skipUpd := -1
+		if st.Tag == "skip-update-w" {
+			skipUpd = 0
+		} else if st.Tag == "skip-update-b" {
+			skipUpd = 1
+		}
+		if skipUpd >= 0 {
+			out.Faults["step-omission/update-of-one-weight"]++
+			faultFired = true
+		}
 		for _, k := range order {
+			if k == skipUpd {
+				continue // this weight's update is left out in this step (it is still reset below)
+			}
 			uerr[k] = sgd.Update(slot(k))
 		}
 		nW, nB, ok := readW()
@@ -657,6 +670,9 @@ func (c11) execOne(sc *sim.Scenario) *sim.Outcome {
 		sim.Resume()
 		if mustFail {
 			for k, name := range []string{"W", "B"} {
+				if k == skipUpd {
+					continue
+				}
 				if uerr[k] == nil {
 					out.Fail("stale-update-accepted", "%s: Update(%s) succeeded although the protocol was broken before it (omitted reset or back-propagation): training on stale state", where, name)
 					return fin()
@@ -675,9 +691,19 @@ func (c11) execOne(sc *sim.Scenario) *sim.Outcome {
 					return fin()
 				}
 			}
-			if *weights[0].Value == oldW || *weights[1].Value == oldB {
+			if (skipUpd != 0 && *weights[0].Value == oldW) || (skipUpd != 1 && *weights[1].Value == oldB) {
 				out.Fail("update-in-place", "%s: Update did not replace the tensor behind the pointer", where)
 				return fin()
+			}
+			if (skipUpd == 0 && *weights[0].Value != oldW) || (skipUpd == 1 && *weights[1].Value != oldB) {
+				out.Fail("weight-moved-without-update", "%s: a weight whose Update was left out was replaced", where)
+				return fin()
+			}
+			if skipUpd == 0 {
+				// the reference for a weight that was not updated: it stays put
+				gW, mW = make([]float64, cfg.O), make([]float64, cfg.O)
+			} else if skipUpd == 1 {
+				gB, mB = make([]float64, cfg.O), make([]float64, cfg.O)
 			}
 			/* trajectory */
 			sumOK, meanOK := true, true
@@ -713,7 +739,7 @@ func (c11) execOne(sc *sim.Scenario) *sim.Outcome {
 				out.Fail("trajectory", "%s: %s (matches neither the derivative of the mini-batch loss nor the known mean-reduced variant: %s)", where, why, whyMean)
 				return fin()
 			}
-			fresh = [2]bool{false, false}
+			fresh = [2]bool{skipUpd == 0, skipUpd == 1}
 			consecutive++
 			if consecutive > maxConsecutive {
 				maxConsecutive = consecutive
